@@ -4,4 +4,5 @@ MCVals == @VALS@
 MCPreds == @PREDS@
 MCOps == @OPS@
 MCBulks == @BULKS@
+MCNRoutes == @NROUTES@
 =============================================================================
